@@ -9,14 +9,14 @@
 EXTENDS Integers, Sequences, FiniteSets, TLC, Json, IOUtils, Term, Dbl
 VARIABLES l, bad, dec
 Kinds == <<"c", "c89", "c99">>
-One(it, t, env) ==
+One(it, t, env, edge) ==
     IF it.bexc # "" THEN "unk"
     ELSE LET val == Val(t, env)
              exact == val.t = "num" /\ ExactRat(val) /\ IAbs(val.re[1]) < 32768 /\ val.re[2] < 32768
              want == RatDbl(val.re)
              bads == {k \in 1..3 : it[Kinds[k]].exc = "does-not-compile"}
              vals == {k \in 1..3 : it[Kinds[k]].exc = ""}
-             lib == it.lib.exc = "" /\ it.lib.v.k = "Dbl" /\ it.lib.v.s # "nan"
+             lib == edge = 0 /\ it.lib.exc = "" /\ it.lib.v.k = "Dbl" /\ it.lib.v.s # "nan"     \* (special points: only the specification decides)
              farx == {k \in vals : exact /\ DblClose(it[Kinds[k]].v, want) = "far"}
              far == {k \in vals : lib /\ it[Kinds[k]].v.s # "nan" /\ DblClose(it[Kinds[k]].v, it.lib.v) = "far"}
              \* (a call of a function the dialect does not declare - loggamma, truncate, erfc under C89 - is the printer's
@@ -31,7 +31,7 @@ CheckEv(e) ==
     IF e.r.exc # "" THEN "bad:harness:" \o e.r.exc
     ELSE LET n == Len(e.r.items)
              env == [q \in {"x", "y"} |-> Val(e.c[q], [z \in {} |-> VUndef])]
-             rs == [i \in 1..n |-> One(e.r.items[i], e.c.ts[i], env)]
+             rs == [i \in 1..n |-> One(e.r.items[i], e.c.ts[i], env, e.c.edge)]
          IN IF \E i \in 1..n : rs[i] \notin {"ok", "unk"} THEN rs[CHOOSE i \in 1..n : rs[i] \notin {"ok", "unk"}] \o "@" \o ToString(CHOOSE i \in 1..n : rs[i] \notin {"ok", "unk"})
             ELSE IF \E i \in 1..n : rs[i] = "ok" THEN "ok" ELSE "unk"
 Events == ndJsonDeserialize(IOEnv.TRACE)
